@@ -493,6 +493,25 @@ def main():
             arms2.append((pat, [('id', 'Some'), ('op', '(')] + expr + [('op', ')')]))
     L += emit_match_fn('responseTypeFor', 't', 'MessageType', 'Option MessageType', arms2, al_rs)
 
+    # HandlingError constructors: the response code each one carries
+    error = tokenize(rd('error.rs'))
+    L += ['', '-- HandlingError::<ctor>().code, read from src/error.rs', 'namespace HandlingErrorCode']
+    for fn, lean in [('not_handled', 'notHandled'), ('not_found', 'notFound'), ('bad_request', 'badRequest'),
+                     ('internal', 'internal'), ('method_not_supported', 'methodNotSupported')]:
+        body = find_fn_body(error, ['impl', 'HandlingError'], fn)
+        i = find_seq(body, ['with_code', '(', 'ResponseType', '::'])
+        j = find_seq(body, ['code', ':', 'None'])
+        if i >= 0 and j < 0:
+            L.append('def %s : Option ResponseType := some .%s' % (lean, body[i + 4][1]))
+        elif j >= 0 and i < 0:
+            L.append('def %s : Option ResponseType := none' % lean)
+        else:
+            raise TranslateError('HandlingError::%s: unrecognised body' % fn)
+    body = find_fn_body(error, ['impl', 'HandlingError'], 'with_code')
+    if find_seq(body, ['code', ':', 'Some', '(', 'code', ')']) < 0:
+        raise TranslateError('HandlingError::with_code: unrecognised body')
+    L += ['end HandlingErrorCode', '']
+
     L += ['end CoapLite', '']
     open(os.path.join(out_dir, 'Tables.lean'), 'w').write('\n'.join(L))
 
